@@ -1,6 +1,8 @@
 """C07 -- transactions: invisible until commit, visible after, erased by rollback."""
 import gc
+import io
 import os
+import pickle
 import re
 import shutil
 
@@ -17,27 +19,28 @@ COQ_SHARD = 150
 REPLAY_KIND = 'input'
 EXHAUSTIVE = {'quick': False, 'thorough': False}
 RULE = ('seeded random histories of 5..25 operations (thorough: up to 40) over one class with two Int columns on a FILE-backed '
-        'sqlite database (timeout 0): create/get/select/count/read/assign/destroySelf/expire/sync/syncUpdate/drop-reference/cull on the parent '
+        'sqlite database (timeout 0): create/get/select/count/read/assign/destroySelf/expire/sync/syncUpdate/pickle.dumps/drop-reference/cull on the parent '
         'connection and on a Transaction (connection=trans and trans.Cls access), commit, commit(close=True), rollback, begin, use after '
         'finish; every history has at least two commit/rollback points; cache=True/False, cull frequency 100/2..6; the class is eager or lazyUpdate, caches attribute values or not (cacheValues=False 25%: every read is a query) (35% lazy: assignments queued on the instance, on either side, also while the other side changes or deletes the row; commit/rollback with assignments queued) and column b is UNIQUE or not (30%: creates, assignments and syncUpdates the database refuses, inside the transaction after earlier work and on the parent connection); one third of the histories '
-        'start from a motif (the witnesses of the findings and near misses of them; parent-side instances with queued assignments at commit; refused statements in the middle of a transaction); half of them end with a sweep that reads every held '
+        'start from a motif (the witnesses of the findings and near misses of them; parent-side instances with queued assignments at commit; refused statements in the middle of a transaction; pickling a transaction-side instance with a queue -- refused -- and a parent-side one -- flushed, or the flush refused by the lock / the UNIQUE column); half of them end with a sweep that reads every held '
         'instance and selects on both sides.  Non-trivial = at least one commit or rollback happened while the transaction held uncommitted '
         'changes and a parent-side instance was held; distinct = distinct (configuration, operation list).')
 EXPLANATION = ('Theorems C07_* (Coq, all histories) over Model/Txn.v, a hand model of Transaction/ConnWrapper/SQLObject instance life-cycle/'
                'CacheFactory for a parent connection and one transaction with sqlite locking; correspondence: after EVERY operation the '
                'model state evaluated by vm_compute is compared with the real SQLObject (outcome, SQL log with sending connection, committed '
                'table via a third DB-API connection, the transaction\'s private view, _deletedCache/_obsolete, passive state of every held '
-               'instance incl. its queued assignments, both caches); the oracle judges the property on the observations alone (a queued value says nothing about the database: freshness is judged on the columns with nothing queued; a lazy assignment sends nothing; syncUpdate writes exactly the queue; a refused statement changes nothing and leaves the transaction open on the view it had).')
+               'instance incl. its queued assignments, both caches); the oracle judges the property on the observations alone (a queued value says nothing about the database: freshness is judged on the columns with nothing queued; a lazy assignment sends nothing; syncUpdate writes exactly the queue; a refused statement changes nothing and leaves the transaction open on the view it had; pickle.dumps of an instance obtained through the transaction raises PicklingError and every observable -- statement log, tables, bookkeeping, every held instance with its queue, both caches -- is what it was, of a parent-side instance it writes exactly the queue first (or raises what the UPDATE raised, queue kept) and the pickled state is the id and the attributes the instance carried; a select through either connection returns the ids of that connection\'s own view).')
 TRUSTED_BASE = [
     'Coq 8.16.1 kernel + vm_compute (examples, correspondence); no native_compute',
-    'Model/Txn.v is hand-written after dbconnection.py (Transaction, ConnWrapper), main.py (get/_init/_SO_loadValue/_SO_setValue/sync/expire/'
-    '_create/_SO_finishCreate/destroySelf), cache.py; tied to the code only by the correspondence run (every operation: outcome, SQL log, '
+    'Model/Txn.v is hand-written after dbconnection.py (Transaction, ConnWrapper), main.py (get/_init/_SO_loadValue/_SO_setValue/sync/syncUpdate/expire/'
+    '_create/_SO_finishCreate/destroySelf/__getstate__), cache.py; tied to the code only by the correspondence run (every operation: outcome, SQL log, '
     'committed table, transaction view, bookkeeping, passive state of every held object, cache contents)',
     'modelled, not verified: sqlite in rollback-journal mode with Python sqlite3 legacy transaction control (isolation_level "" on the '
     'transaction\'s connection, None elsewhere) and timeout 0: the transaction\'s first INSERT/UPDATE/DELETE takes the write lock (also when '
     'no row matched) until COMMIT/ROLLBACK, a parent write meanwhile fails at once with OperationalError, parent reads see the committed '
     'table, AUTOINCREMENT counter is rolled back with the transaction; CPython reference counting; dict insertion order',
     'fixture: one class with two nullable Int columns, per case eager or lazyUpdate and with or without UNIQUE on column b; no joins/listeners; '
+    'pickling: the class of the fixture lives on the parent connection, so sqlmeta._perConnection is modelled as "the instance is on the transaction\'s side" (every way the harness obtains an instance through the transaction passes connection=trans); only __getstate__ / pickle.dumps is in the operation set (no unpickling); the pickled state is read back with an Unpickler that builds no SQLObject instance; '
     'assignments are single-attribute (o.col = v; .set(**kw) is not in the operation set, so sqlmeta.dirty is "something is queued" -- checked on '
     'every observation); sqlite: a statement refused by a UNIQUE constraint has taken the write lock (in_transaction stays true on the '
     'transaction\'s connection, parent writes are refused until commit/rollback) and consumes no id; one transaction object per history; '
@@ -67,8 +70,30 @@ def row_class(lazy=False, uniq=False, nocache=False):
             cacheValues = not key[2]
         name = 'VerifC07Row' + ('L' if key[0] else '') + ('U' if key[1] else '') + ('N' if key[2] else '')
         _classes[key] = type(name, (SQLObject,), {'sqlmeta': sqlmeta, 'a': IntCol(default=None),
-                                                  'b': IntCol(default=None, unique=key[1])})
+                                                  'b': IntCol(default=None, unique=key[1]),
+                                                  '__module__': __name__, '__qualname__': name})
+        globals()[name] = _classes[key]        # pickle saves a class by reference: module attribute of that name
     return _classes[key]
+
+
+class _PickledState(object):
+    """stands in for the class when the harness reads a pickle back: keeps the state instead of building an instance"""
+    def __setstate__(self, d):
+        self.d = d
+
+
+class _StateReader(pickle.Unpickler):
+    def find_class(self, module, name):
+        return _PickledState
+
+
+def pickled_state(o):
+    """pickle.dumps(o), and the state dictionary the pickle carries (read back without creating an SQLObject instance)"""
+    data = pickle.dumps(o)
+    d = _StateReader(io.BytesIO(data)).load().d
+    vals = [['v', d['_SO_val_' + c]] if ('_SO_val_' + c) in d else ['absent'] for c in COLS]
+    extra = sorted(k for k in d if k != 'id' and k not in ['_SO_val_' + c for c in COLS])
+    return ['state', d.get('id'), vals, extra]
 
 
 # ------------------------------------------------------------------ generation
@@ -126,6 +151,21 @@ NOCACHE_MOTIFS = [
 ]
 
 
+# pickling: an instance obtained through the transaction is refused before anything happens (its queue stays, nothing is sent);
+# a parent-side lazyUpdate instance writes its queue first -- also while the transaction holds the lock (the exception leaves
+# pickle.dumps), and after commit / rollback
+PICKLE_MOTIFS = [
+    [['create', 'P', False, 1, 1], ['get', 'T', False, 1], ['set', 1, 0, 5], ['set', 0, 0, 7], ['set', 0, 1, 8], ['pickle', 1], ['pickle', 0],
+     ['read', 1, 0], ['syncupdate', 1], ['commit', False], ['pickle', 0], ['pickle', 1]],
+    [['create', 'P', False, 1, 1], ['get', 'T', False, 1], ['set', 1, 0, 5], ['syncupdate', 1], ['set', 0, 1, 8], ['pickle', 0], ['pickle', 1],
+     ['rollback'], ['pickle', 1], ['pickle', 0], ['begin'], ['pickle', 1]],
+    [['create', 'T', False, 1, 1], ['set', 0, 0, 3], ['set', 0, 1, 4], ['pickle', 0], ['select', 'T', False, 0], ['pickle', 1], ['commit', False],
+     ['get', 'P', False, 1], ['pickle', 2], ['set', 2, 0, 9], ['pickle', 2], ['pickle', 0]],
+    [['create', 'P', False, 1, 1], ['create', 'P', False, 2, 2], ['get', 'T', False, 2], ['set', 0, 1, 2], ['pickle', 0], ['set', 2, 1, 1], ['pickle', 2],
+     ['expire', 0], ['pickle', 0], ['destroy', 1], ['pickle', 1], ['commit', True], ['pickle', 2]],
+]
+
+
 def gen_history(rng, maxlen=25, minlen=5):
     cfg = {'cache': rng.random() < 0.55, 'freq': rng.choice([100, 100, 2, 3, 4, 6]), 'frac': rng.choice([2, 2, 3]),
            'lazy': rng.random() < 0.35, 'uniq': rng.random() < 0.3, 'nocache': rng.random() < 0.25}
@@ -163,7 +203,9 @@ def gen_history(rng, maxlen=25, minlen=5):
 
     if rng.random() < 0.34:
         pool = MOTIFS
-        if cfg['nocache'] and rng.random() < 0.6:
+        if rng.random() < 0.2:
+            pool = PICKLE_MOTIFS
+        elif cfg['nocache'] and rng.random() < 0.6:
             pool = NOCACHE_MOTIFS
         elif cfg['lazy'] and rng.random() < 0.6:
             pool = LAZY_MOTIFS
@@ -172,7 +214,8 @@ def gen_history(rng, maxlen=25, minlen=5):
         for op in rng.choice(pool):
             add(list(op))
     W = [('create', 10), ('get', 12), ('select', 7), ('count', 2), ('read', 14), ('set', 16), ('destroy', 5), ('expire', 4),
-         ('sync', 3), ('drop', 7), ('cull', 2), ('commit', 9), ('rollback', 6), ('begin', 2), ('syncupdate', 7 if cfg['lazy'] else 1)]
+         ('sync', 3), ('drop', 7), ('cull', 2), ('commit', 9), ('rollback', 6), ('begin', 2), ('syncupdate', 7 if cfg['lazy'] else 1),
+         ('pickle', 9 if cfg['lazy'] else 4)]
     names = [w[0] for w in W]
     weights = [w[1] for w in W]
     while len(ops) < n:
@@ -181,7 +224,7 @@ def gen_history(rng, maxlen=25, minlen=5):
         if not tx_active[0] and rng.random() < 0.5:
             add(['begin'])
             continue
-        if t in ('read', 'set', 'destroy', 'expire', 'sync', 'syncupdate', 'drop') and not any(s is not None for s in sides) and rng.random() < 0.9:
+        if t in ('read', 'set', 'destroy', 'expire', 'sync', 'syncupdate', 'pickle', 'drop') and not any(s is not None for s in sides) and rng.random() < 0.9:
             t = rng.choice(['create', 'get', 'select'])
         if t == 'create':
             add(['create', pick_side(), via, rng.choice(VALS), rng.choice(VALS)])
@@ -197,6 +240,8 @@ def gen_history(rng, maxlen=25, minlen=5):
             add(['set', slot_of('T' if rng.random() < 0.6 else None), rng.randint(0, 1), rng.choice(VALS)])
         elif t in ('destroy', 'expire', 'sync', 'syncupdate', 'drop'):
             add([t, slot_of()])
+        elif t == 'pickle':
+            add([t, slot_of(rng.choice(['T', 'T', 'P', 'P', None]))])
         elif t == 'cull':
             add(['cull', pick_side()])
         elif t == 'commit':
@@ -239,6 +284,9 @@ def corpus():
         for m in UNIQ_MOTIFS:
             for lz in (False, True):
                 out.append({'cfg': {'cache': cache, 'freq': 100, 'frac': 2, 'lazy': lz, 'uniq': True}, 'ops': [list(o) for o in m]})
+        for m in PICKLE_MOTIFS:
+            for lz, uq, nc in ((True, False, False), (False, False, False), (True, True, False), (True, False, True)):
+                out.append({'cfg': {'cache': cache, 'freq': 100, 'frac': 2, 'lazy': lz, 'uniq': uq, 'nocache': nc}, 'ops': [list(o) for o in m]})
     return out
 
 
@@ -280,7 +328,7 @@ def abstract_sql(q, side):
     return ['other', side, q[:80]]
 
 
-EXC = {'SQLObjectNotFound': 'ENotFound', 'OperationalError': 'EOperational', 'AssertionError': 'EAssertion',
+EXC = {'SQLObjectNotFound': 'ENotFound', 'PicklingError': 'EPickling', 'OperationalError': 'EOperational', 'AssertionError': 'EAssertion',
        'AttributeError': 'EAttribute', 'IndexError': 'EBadHandle', 'DuplicateEntryError': 'EDuplicate'}
 
 
@@ -378,10 +426,12 @@ def run_history(case, workdir):
             if op[1] == 'T':
                 return ['num', cls.select(connection=tx).count()]
             return ['num', cls.select().count()]
-        if t in ('read', 'set', 'destroy', 'expire', 'sync', 'syncupdate'):
+        if t in ('read', 'set', 'destroy', 'expire', 'sync', 'syncupdate', 'pickle'):
             o = slots[op[1]] if op[1] < len(slots) else None
             if o is None:
                 raise IndexError('bad handle')
+            if t == 'pickle':
+                return pickled_state(o)
             if t == 'read':
                 return ['val', getattr(o, COLS[op[2]])]
             if t == 'set':
@@ -447,6 +497,8 @@ def run_history(case, workdir):
                 r = ['ret', do(op)]
             except Exception as e:  # noqa
                 name = type(e).__name__
+                if name == 'PicklingError' and 'per-instance connection' not in str(e):
+                    name = 'PicklingError(%s)' % e       # pickle's own refusal (class not importable ...): not SQLObject's
                 r = ['exc', EXC.get(name, 'OTHER:' + name)]
                 raised = True
             if raised:
@@ -523,8 +575,9 @@ def cop(op):
         return '(ORead %d%%nat %d%%nat)' % (op[1], op[2])
     if t == 'set':
         return '(OSet %d%%nat %d%%nat %s)' % (op[1], op[2], cval(op[3]))
-    if t in ('destroy', 'expire', 'sync', 'syncupdate', 'drop'):
-        return '(%s %d%%nat)' % ({'destroy': 'ODestroy', 'expire': 'OExpire', 'sync': 'OSync', 'syncupdate': 'OSyncUpdate', 'drop': 'ODrop'}[t], op[1])
+    if t in ('destroy', 'expire', 'sync', 'syncupdate', 'pickle', 'drop'):
+        return '(%s %d%%nat)' % ({'destroy': 'ODestroy', 'expire': 'OExpire', 'sync': 'OSync', 'syncupdate': 'OSyncUpdate', 'pickle': 'OPickle',
+                                  'drop': 'ODrop'}[t], op[1])
     if t == 'cull':
         return '(OCull %s)' % cside(op[1])
     if t == 'commit':
@@ -557,6 +610,10 @@ def cout(r):
         return '(XRet (RVal %s))' % cval(v[1]) if (v[1] is None or isinstance(v[1], int)) else NEVER
     if v[0] == 'num':
         return '(XRet (RNum %s))' % z(v[1])
+    if v[0] == 'state':
+        if v[3] or not isinstance(v[1], int) or any(x[0] == 'v' and not (x[1] is None or isinstance(x[1], int)) for x in v[2]):
+            return NEVER
+        return '(XRet (RState %s [%s]))' % (z(v[1]), '; '.join('None' if x[0] == 'absent' else '(Some %s)' % cval(x[1]) for x in v[2]))
     raise ValueError(r)
 
 
@@ -734,6 +791,40 @@ def judge(k, op, before, cur, created_in_tx, cfg=None):
             return fail(k, op, 'syncUpdate returned and left assignments queued', kind='sync_update', instance=v1)
         if not q0 and cur['log']:
             return fail(k, op, 'syncUpdate with nothing queued sent a statement', kind='sync_update', log=cur['log'])
+    # ---- pickling.  An instance obtained through the transaction is bound to an explicit connection: refused, and NOTHING else
+    #      happens (no flush of its queue, no statement, every observable exactly as before); a parent-side instance is accepted:
+    #      a lazyUpdate instance writes its queue first (one UPDATE, like syncUpdate), anything else sends nothing
+    if t == 'pickle' and side == 'T':
+        if out != ['exc', 'EPickling']:
+            return fail(k, op, 'pickling an instance bound to the transaction was not refused with PicklingError', kind='pickle_refused', actual=out)
+        if cur['log']:
+            return fail(k, op, 'a refused pickle sent a statement', kind='pickle_refused', log=cur['log'])
+        for what in ('committed', 'pending', 'deleted', 'tobs', 'slots', 'caches'):
+            if cur[what] != before[what]:
+                return fail(k, op, 'a refused pickle changed the state (%s)' % what, kind='pickle_refused', expected=before[what], actual=cur[what])
+    if t == 'pickle' and side == 'P':
+        v0, v1 = before['slots'][op[1]], cur['slots'][op[1]]
+        q0 = queued(v0) if cfg.get('lazy') else {}
+        if out == ['exc', 'EPickling']:
+            return fail(k, op, 'pickling an instance of the class connection was refused', kind='pickle_accepted')
+        if not q0:
+            if out[0] != 'ret' or cur['log'] or any(cur[w] != before[w] for w in ('committed', 'pending', 'deleted', 'tobs', 'slots', 'caches')):
+                return fail(k, op, 'pickling an instance with nothing queued did something', kind='pickle_accepted', out=out, log=cur['log'])
+        elif out[0] == 'ret':
+            was = rows0.get(v0[1])
+            want = None if was is None else [q0.get(c, x) for c, x in enumerate(was)]
+            if rows1.get(v0[1]) != want or queued(v1) or len(cur['log']) != 1:
+                return fail(k, op, 'pickling a lazyUpdate instance did not write exactly its queued assignments first', kind='pickle_accepted',
+                            expected=want, actual=rows1.get(v0[1]), log=cur['log'], instance=v1)
+        else:
+            # the flush was refused: by the transaction's write lock or by the UNIQUE column; the queue stays
+            if not ((out[1] == 'EOperational' and before['pending'] is not None) or (out[1] == 'EDuplicate' and cfg.get('uniq'))):
+                return fail(k, op, 'pickling a parent-side instance raised %s' % out[1], kind='pickle_accepted')
+            if cur['committed'] != before['committed'] or queued(v1) != q0:
+                return fail(k, op, 'a pickle whose flush was refused changed the table or lost the queue', kind='pickle_accepted')
+        if out[0] == 'ret' and (out[1][0] != 'state' or out[1][1] != v0[1] or out[1][2] != v0[2] or out[1][3]):
+            return fail(k, op, 'the pickled state is not the id and the column attributes of the instance', kind='pickle_accepted',
+                        expected=[v0[1], v0[2]], actual=out[1])
     # ---- a statement the UNIQUE column refuses changes nothing: the transaction keeps what it did and stays open
     if out == ['exc', 'EDuplicate']:
         if not cfg.get('uniq'):
@@ -793,6 +884,12 @@ def judge(k, op, before, cur, created_in_tx, cfg=None):
                 return fail(k, op, 'parent-side get raises not-found for a committed row', kind='parent_read')
             if out[0] == 'ret' and out[1][2] is None and op[3] not in rows1 and not was_cached(before, 'P', op[3]):
                 return fail(k, op, 'parent-side get returns a row that is not committed', kind='parent_read')
+    # ---- a select through the transaction returns the rows of the transaction's own view (its uncommitted work included)
+    if side == 'T' and t == 'select' and not op[2] and out[0] == 'ret':
+        want = sorted(view_rows(before, 'T'))
+        if [i for i, _ in out[1][1]] != want:
+            return fail(k, op, "a select through the transaction does not return the rows of the transaction's view", kind='txn_read',
+                        expected=want, actual=[i for i, _ in out[1][1]])
     if cfg.get('nocache') and t == 'read' and side in ('P', 'T'):
         # cacheValues = False: every read is a query of the instance's own connection
         v0 = before['slots'][op[1]]
@@ -986,7 +1083,9 @@ def distribution(cases, obs):
     d = {'ops': {}, 'outcomes': {}, 'cache': {'True': 0, 'False': 0}, 'commit_with_changes': 0, 'rollback_with_changes': 0,
          'parent_write_locked': 0, 'use_after_finish': 0, 'lengths': {}, 'auto_cull_configs': 0,
          'lazy_configs': 0, 'uniq_configs': 0, 'nocache_configs': 0, 'nocache_commit_deleting_a_cached_parent_row': 0, 'commit_with_dirty_parent_instance': 0, 'commit_with_dirty_parent_instance_of_changed_row': 0,
-         'refused_in_transaction_with_earlier_work': 0, 'refused_on_parent': 0, 'sync_updates_written': 0}
+         'refused_in_transaction_with_earlier_work': 0, 'refused_on_parent': 0, 'sync_updates_written': 0,
+         'pickle_refused': 0, 'pickle_refused_with_queue': 0, 'pickle_refused_finished_transaction': 0, 'pickle_accepted': 0,
+         'pickle_flushed_queue': 0, 'pickle_flush_refused': 0}
     for c, o in zip(cases, obs):
         if not isinstance(o, dict) or 'steps' not in o:
             continue
@@ -1025,6 +1124,20 @@ def distribution(cases, obs):
                     d['refused_on_parent'] += 1
             if op[0] == 'syncupdate' and s['out'][0] == 'ret' and s['log']:
                 d['sync_updates_written'] += 1
+            if op[0] == 'pickle':
+                v0 = prev['slots'][op[1]] if op[1] < len(prev['slots']) else None
+                if s['out'] == ['exc', 'EPickling']:
+                    d['pickle_refused'] += 1
+                    if v0 is not None and queued(v0):
+                        d['pickle_refused_with_queue'] += 1
+                    if prev['tobs']:
+                        d['pickle_refused_finished_transaction'] += 1
+                elif s['out'][0] == 'ret':
+                    d['pickle_accepted'] += 1
+                    if s['log']:
+                        d['pickle_flushed_queue'] += 1
+                elif s['log']:
+                    d['pickle_flush_refused'] += 1
             if op[0] == 'rollback' and prev['pending'] is not None:
                 d['rollback_with_changes'] += 1
             if s['out'] == ['exc', 'EOperational']:
